@@ -8,6 +8,10 @@ CLAIMS = {
    text="TLC checks the coherence laws (equivalence, trichotomy, unions, transitivity, prefix order, key-order insensitivity, u* agreement) on the specification's Equals/Compare over every pair and triple of a universe dense in near-equal values; every pair is then replayed through the real evaluator for all ten operators under several monotone number lifts, so the laws transfer to the code on that universe; seeded random pairs/triples recorded from the real evaluator are validated by TLC against the same operators.",
    note="Trusted: TLC, the harness renderer (value -> source text), monotone zero-preserving number lifts, code-point-sorted alphabet. NaN excluded as the property states. Random part is sampled, not exhaustive.",
    technique="TLA+ spec (BlotsOrder) model-checked with TLC; TLC-enumerated cases replayed into the real evaluator; recorded traces validated by TLC (Trace_C12)"),
+ "C02": dict(category="exploration", design_ref="5 C02",
+   text="Purity is a theorem of the reference evaluator that TLC checks for every (program, sub-expression position) of MC_C02: LetAbstractionLaw (binding the sub-expression to a fresh name and using the name gives the same result), TwiceLaw ([e, e] = [v, v]) and NoEffectLaw (the scope is unchanged); each state is replayed into the real evaluator, which must agree with the model, with its own [e, e], with the let-abstracted program, with two re-runs after unrelated evaluations and with three separate CLI processes (fresh hash seeds). Determinism itself cannot be enumerated: seeded random programs (sessions, built-in calls, broadcasts) are run twice in process and, sampled, three times as processes, and heap-cell digests before / after every statement are validated by TLC (append-only, at most one lambda name write, only by an assignment).",
+   note="Exploration level: determinism over runs / processes / hash seeds is sampled. Trusted: TLC, renderer, Debug-form digests of heap cells. time_now and print excluded as the property says.",
+   technique="TLA+ reference evaluator laws model-checked with TLC; cases replayed into several sessions and CLI processes; recorded run-sets and heap digests validated by TLC (Trace_C02)"),
  "C03": dict(category="model_checking", design_ref="5 C03",
    text="Session.tla is a state machine (root scope, outputs, last outcome) whose statements are evaluated by the reference evaluator BlotsEval.tla; TLC explores every statement sequence of length 2 (thorough: 3) over a 96-statement alphabet (binding, rebinding, nested and self-nested assignment, failing statements with partial effect, reserved names, do-block shadowing, closures, calls, parameter shadowing, assignment inside function bodies, outputs) and checks the action properties Immutable, OutputsAppendOnly and FailedStmtFrame on every transition. Every behaviour is replayed in a real session, comparing success, value and the whole root scope after each statement. Random 25-statement sessions over 8 names, recorded with the insertion hook, are validated by TLC: each statement is re-executed by the model and Immutable / NoDoubleInsert / NoLeak / InsertsExplainChange are evaluated on the observed states.",
    note="Trusted: TLC, the core-language renderer, hook H1 (Environment::insert, cfg blots_verif). Closures are compared by kind in scope snapshots and by behaviour through call statements.",
